@@ -5,8 +5,8 @@
 # remove it with: tools/scratch.sh rm seed
 set -u
 patch="$(readlink -f "$1")"; shift
-base=/var/tmp/vs-seed
-if [ ! -d "$base/repo" ]; then /verif/tools/scratch.sh new seed >/dev/null || exit 3; fi
+name="${VS_NAME:-seed}"; base=/var/tmp/vs-$name
+if [ ! -d "$base/repo" ]; then /verif/tools/scratch.sh new "$name" >/dev/null || exit 3; fi
 cd "$base/repo" && git reset -q --hard && git clean -qfd -e target && git checkout -q --detach "$(git -C /repo rev-parse HEAD)" || exit 3
 # refresh harness copy (keep target), rewrite paths
 rsync -a --delete --exclude target /verif/harness/ "$base/verif/harness/"
